@@ -322,7 +322,7 @@ func (r *run) describeOnce(timeout int, s []arrival) descOutcome {
 }
 
 func (r *run) c20describe(budget int) {
-	base := runtime.NumGoroutine()
+	base := quiesce()
 	// a queried port nobody listens on: the receiver ends at once (connection refused), the call
 	// must still return at its timeout
 	for _, timeout := range []int{1, 50, 200} {
@@ -540,7 +540,8 @@ func (r *run) discoverOnce(port int, timeout int, s []arrival, nresp int) (strin
 }
 
 func (r *run) c20discover(budget int) {
-	base := runtime.NumGoroutine()
+	base := quiesce()
+	r.c20discoverErrors(base)
 	port := 20000 + r.g.R.Intn(20000)
 	for i := 0; i < budget && hung < 3; i++ {
 		port++
@@ -601,6 +602,37 @@ func (r *run) c20discover(budget int) {
 		}
 		r.classes[fmt.Sprintf("discover-timeout-%dms", timeout)]++
 		r.classes[fmt.Sprintf("discover-responders-%d", nresp)]++
+	}
+}
+
+// openFDs counts this process's open file descriptors
+func openFDs() int {
+	d, err := os.ReadDir("/proc/self/fd")
+	if err != nil {
+		return -1
+	}
+	return len(d)
+}
+
+// c20discoverErrors: calls that fail after the socket was opened must release it too
+func (r *run) c20discoverErrors(base int) {
+	fds := openFDs()
+	for i := 0; i < 12; i++ {
+		// port 0: the socket opens (kernel-chosen port), the search request cannot be built
+		res, err := knx.Discover(fmt.Sprintf("239.23.12.%d:0", 1+i), 20*time.Millisecond)
+		if err == nil {
+			r.classes["discover-port0-accepted"]++
+			_ = res
+		} else {
+			r.classes["discover-error-path"]++
+		}
+	}
+	time.Sleep(20 * time.Millisecond)
+	if n := settleGoroutines(base); n > base {
+		r.violation("discover-goroutine-left", "discover <group>:0 x12 (fails after the socket was opened)", fmt.Sprintf("%d goroutines after the calls, %d before", n, base)+stacks())
+	}
+	if now := openFDs(); fds >= 0 && now > fds {
+		r.violation("discover-socket-not-released", "discover <group>:0 x12 (fails after the socket was opened)", fmt.Sprintf("%d open file descriptors after the calls, %d before", now, fds))
 	}
 }
 
